@@ -626,6 +626,24 @@ inline std::vector<Shape> all_shapes() {
         v.push_back(s);
     }
     {
+        // full root border whose LAST entry is a link to a one-key layer: a split moves the link (and re-parents the layer root)
+        Shape s;
+        s.name = "B15Lhi";
+        s.inserts = seq(1, 14);
+        s.inserts.push_back(P8() + "a");
+        s.pal = {{"in", "08"}, {"inL", P8() + "a"}, {"only", P8() + "a"}, {"newL", P8() + "b"}, {"new", "075"}, {"new2", "15"}, {"first", "01"}};
+        v.push_back(s);
+    }
+    {
+        // full root border whose FIRST entry is a link to a one-key layer: a split leaves the link in the old node
+        Shape s;
+        s.name = "B15Llo";
+        s.inserts = seq(1, 14);
+        s.inserts.push_back("!!!!!!!!a");
+        s.pal = {{"in", "08"}, {"inL", "!!!!!!!!a"}, {"only", "!!!!!!!!a"}, {"newL", "!!!!!!!!b"}, {"new", "075"}, {"new2", "15"}, {"edge", "14"}};
+        v.push_back(s);
+    }
+    {
         // interior root over two borders 8 | 8
         Shape s;
         s.name = "I2_8_8";
